@@ -416,6 +416,14 @@ class HttpProxyPlugin(HttpProtocolHandlerPlugin):
 
     # Can return None to tear down connection
     def on_client_data(self, raw: memoryview) -> None:
+        # A single read from the client may carry more than one
+        # pipelined request; whatever follows a complete request
+        # is handled like a separate read.
+        remainder: Optional[memoryview] = raw
+        while remainder is not None:
+            remainder = self._on_client_data(remainder)
+
+    def _on_client_data(self, raw: memoryview) -> Optional[memoryview]:
         # For scenarios when an upstream connection was never established,
         # let plugin do whatever they wish to.  These are special scenarios
         # where plugins are trying to do something magical.  Within the core
@@ -430,7 +438,7 @@ class HttpProxyPlugin(HttpProtocolHandlerPlugin):
             for plugin in self.plugins.values():
                 o = plugin.handle_client_data(raw)
                 if o is None:
-                    return
+                    return None
                 raw = o
         elif self.upstream and not self.upstream.closed:
             # For http proxy requests, handle pipeline case.
@@ -445,7 +453,7 @@ class HttpProxyPlugin(HttpProtocolHandlerPlugin):
                     # upgrade request. Incoming client data now
                     # must be treated as WebSocket protocol packets.
                     self.upstream.queue(raw)
-                    return
+                    return None
                 if self.pipeline_request is None:
                     # For pipeline requests, we never
                     # want to use --enable-proxy-protocol flag
@@ -460,11 +468,13 @@ class HttpProxyPlugin(HttpProtocolHandlerPlugin):
                     )
                 self.pipeline_request.parse(raw)
                 if self.pipeline_request.is_complete:
+                    remainder = self.pipeline_request.buffer
+                    self.pipeline_request.buffer = None
                     for plugin in self.plugins.values():
                         assert self.pipeline_request is not None
                         r = plugin.handle_client_request(self.pipeline_request)
                         if r is None:
-                            return
+                            return None
                         self.pipeline_request = r
                     assert self.pipeline_request is not None
                     # Same treatment as the first request on the connection:
@@ -487,10 +497,12 @@ class HttpProxyPlugin(HttpProtocolHandlerPlugin):
                     )
                     if not self.pipeline_request.is_connection_upgrade:
                         self.pipeline_request = None
+                    return remainder
             # For scenarios where we cannot peek into the data,
             # simply queue for upstream server.
             else:
                 self.upstream.queue(raw)
+        return None
 
     @property
     def _tls_intercept_enabled(self) -> bool:
